@@ -260,5 +260,6 @@ func genRun(c *common.Corpus, seed uint64, cold bool, syncHeavy bool) (*simrt.Ru
 	p.PoolEvict = []float64{0, 0, 0.05, 0.15, 0.3}[r.Intn(5)]
 	p.PoolCross = []float64{0, 0.2, 0.5, 1.0}[r.Intn(4)]
 	p.ClockJumpP = []float64{0, 0.02, 0.1}[r.Intn(3)]
+	p.TimerP = []float64{0, 0.001, 0.01, 0.05}[r.Intn(4)]
 	return spec, shape
 }
